@@ -30,7 +30,7 @@ def exhaustive(tier):
 
 def required(tier):
     return {"pair_laws": 100000, "pow_laws": 2000, "triple_laws": 10000, "hash_eq_checks": 100000,
-            "snapshots_compared": 100000, "container_invariant_evals": 100000, "pi_sets": 200, "pi_sets_all_dimensionless": 10,
+            "snapshots_compared": 100000, "container_invariant_evals": 100000, "pi_sets": 200, "combined_unit_dimensionality_vs_fresh": 2000, "dim_homomorphism_primed_operands": 1000, "pi_sets_all_dimensionless": 10,
             "layers": 6}
 
 
@@ -425,9 +425,14 @@ def run_dim_homomorphism(ck, L, rec, ints, rng):
             out = madd(out, {kk: vv * v for kk, vv in dimof[k].items()})
         return out
 
-    for _ in range(4000):
+    for it in range(4000):
         dx, dy = rng.choice(ints), rng.choice(ints)
         x, y = L.make(dx), L.make(dy)
+        if it % 2:
+            # KEPT operands: their own dimensionality (and what hangs on it) was asked for before they are combined
+            x.dimensionality, y.dimensionality
+            getattr(x, "dimensionless", None), getattr(y, "dimensionless", None)
+            rec.count("dim_homomorphism_primed_operands")
         k = rng.choice((-2, -1, 2, 3))
         rec.count("dim_homomorphism")
         rec.case((L.name, "dimhom", str(dx), str(dy), k), nontrivial=bool(dx or dy))
@@ -465,6 +470,10 @@ def run_random(spec, rec, rng, pint, pintload, monitors):
             mk = lambda d: ureg.Unit(ureg.UnitsContainer({k: int(v) for k, v in d.items()}))  # noqa: E731
             x, y = mk(dx), mk(dy)
             hash(x), hash(y)
+            primed = i % 2 == 1
+            if primed:
+                # operands that were already asked for their dimensionality / compatibility (kept Unit objects)
+                x.dimensionality, y.dimensionality, x.dimensionless, x.is_compatible_with(y)
             before = ck.snapshot(x, y)
             rec.case((L.name, str(sorted(dx.items())), str(sorted(dy.items()))))
             rec.count("pair_laws")
@@ -473,6 +482,16 @@ def run_random(spec, rec, rng, pint, pintload, monitors):
             ck.result("div", q, madd(dx, dy, -1))
             ck.eqhash("commutative", p, y * x, True, x=str(dx), y=str(dy))
             ck.eqhash("x/y*y==x", q * y, x, True, x=str(dx), y=str(dy))
+            # the dimensionality a combined unit reports is the one a freshly built unit with the same
+            # content reports (no memo carried over from the operands), and u / u is dimensionless
+            for opn, obj in (("mul", p), ("div", q), ("pow", x ** -2), ("self-div", x / x)):
+                rec.count("combined_unit_dimensionality_vs_fresh")
+                twin = ureg.Unit(ureg.UnitsContainer(dict(obj._units._d)))
+                if dict(obj.dimensionality._d) != dict(twin.dimensionality._d) or obj.dimensionless != twin.dimensionless:
+                    ck.bad("combined-unit-dimensionality-differs-from-fresh-unit", op=opn, x=str(dx), y=str(dy),
+                           primed_operands=primed, got=str(obj.dimensionality), want=str(twin.dimensionality))
+            if not (x / x).dimensionless or dict((x / x).dimensionality._d):
+                ck.bad("self-quotient-not-dimensionless", x=str(dx), primed_operands=primed)
             z = x ** 0
             ck.result("pow0", z, {}, x=str(dx))
             ck.eqhash("u**0==dimensionless", z, ureg.Unit(""), True, x=str(dx))
